@@ -442,3 +442,8 @@ func finish(ctx *Ctx, r *Report, verifDir string, seed int, wall float64, known 
 	}
 	return 0
 }
+
+// noSpace removes blanks so that an expression can be part of a construct identity.
+func noSpace(s string) string {
+	return strings.Join(strings.Fields(s), "")
+}
